@@ -8,7 +8,18 @@
                                       that RENDERS its attributes has its range inside `src`
                                       (`Inside`: start `< |src|`, end `≤ |src|`)
                                                  →  renderDoc x cfg (src ++ "\n") = renderDoc x cfg src
-      doc_crlf_invariant_sp_partial   see part 3.
+      doc_crlf_invariant_sp_partial   '\r' ∉ src, the inline pass does not panic on src (as without sourcepos), and
+                                      (hix) every pair of inline runs is `InlineExact`, (hanch) no attribute-
+                                      rendering node starts AT a line feed
+                                                 →  renderDoc x cfg (lfToCrlf src) = renderDoc x cfg src
+                                      The BLOCK half is unconditional: `Block.LX.parseBlocks_crlf_exact`
+                                      (`Lemmas/C10SourceposSim*.lean`, a copy of the lock-step simulation of
+                                      `Lemmas/C10Doc*.lean` whose offset relation only has to survive shifts INSIDE
+                                      a line) relates the two block trees by `b = a + #LF before a`, for every
+                                      range end point and every value of a per-line table.
+  The two hypotheses about ranges (`hin`, `hanch`) and `hix` are checked by evaluation on the examples;
+  the OPEN blocks at the end of parts 2 and 3 name the missing lemmas (non-emptiness of block ranges,
+  the inline half of C05, exactness of the inline parser in its table).
 
   What decides (found with `#eval` on the model, then proved as the lemmas of
   `Lemmas/C10SourceposPos.lean`): `get_position(o)` is the state of a fold over the characters that start
@@ -31,6 +42,7 @@
   at the end of part 2.
 -/
 import MdIt.Lemmas.C10SourceposTree
+import MdIt.Lemmas.C10SourceposSim
 import MdIt.Props.DocTotal
 
 namespace MdIt.Pipeline
@@ -196,5 +208,494 @@ example (x : Bool) : renderDoc x (exCfg true 100) (exDoc ++ ['\n']) = renderDoc 
 
 /-- the output in question carries positions (3 attributes: 130 characters instead of 55) -/
 example : (renderDoc false (exCfg true 100) exDoc).toOption.map List.length = some 130 := by decide +kernel
+
+
+mutual
+/-- the `data-sourcepos` values of a tree, with the kind tag of the node, in document order -/
+def spValues : Node → List (Tag × List Char)
+  | ⟨k, _, a, cs⟩ => (a.filter (fun nv => nv.1 = NodeRender.aSourcepos)).map (fun nv => (k.tag, nv.2)) ++ spValuesList cs
+def spValuesList : List Node → List (Tag × List Char)
+  | [] => []
+  | c :: cs => spValues c ++ spValuesList cs
+end
+
+/-- a configuration WITHOUT the paragraph rule (every line goes through the fallback of
+    `BlockParser::tokenize`: content `line + "\n"`, one-entry table) -/
+def noParaCfg : DocCfg := { exCfg true 100 with blockChain := [.hr] }
+
+/-- **the TREES are not invariant, only the HTML is** — (1) the root after a final LF: its range ends
+    behind the LF, `get_positions` reads the end at the LF, position `2:0` -/
+example : (parseDoc (exCfg true 100) "a".toList).toOption.map spValues =
+      some [(.root, "1:1-1:1".toList), (.p, "1:1-1:1".toList), (.T, "1:1-1:1".toList)] ∧
+    (parseDoc (exCfg true 100) "a\n".toList).toOption.map spValues =
+      some [(.root, "1:1-2:0".toList), (.p, "1:1-1:1".toList), (.T, "1:1-1:1".toList)] := by decide +kernel
+
+/-- (2) a hard break covers its line terminator; with the paragraph rule its range is translated line
+    by line and ends at the START of the next line, so the end position is read at the LF in both texts
+    (`2:0`) … -/
+example : (parseDoc (exCfg true 100) "a  \nb".toList).toOption.map spValues =
+      some [(.root, "1:1-2:1".toList), (.p, "1:1-2:1".toList), (.T, "1:1-1:1".toList), (.HB, "1:2-2:0".toList),
+        (.T, "2:1-2:1".toList)] ∧
+    (parseDoc (exCfg true 100) "a  \r\nb".toList).toOption.map spValues =
+      some [(.root, "1:1-2:1".toList), (.p, "1:1-2:1".toList), (.T, "1:1-1:1".toList), (.HB, "1:2-2:0".toList),
+        (.T, "2:1-2:1".toList)] := by decide +kernel
+
+/-- … but WITHOUT the paragraph rule the one-entry table of the fallback translates the end of the
+    break to `line_end + 1`: the LF itself in the LF text (`2:0`), the CR of the pair in the CR LF text
+    (`1:4`) — the attribute of the `Hardbreak` NODE differs; `Hardbreak::render` passes `&[]`, so the
+    HTML does not -/
+example : (parseDoc noParaCfg "a  \nb".toList).toOption.map spValues =
+      some [(.root, "1:1-2:1".toList), (.T, "1:1-1:1".toList), (.HB, "1:2-2:0".toList),
+        (.T, "2:1-2:1".toList), (.SB, "2:1-2:1".toList)] ∧
+    (parseDoc noParaCfg "a  \r\nb".toList).toOption.map spValues =
+      some [(.root, "1:1-2:1".toList), (.T, "1:1-1:1".toList), (.HB, "1:2-1:4".toList),
+        (.T, "2:1-2:1".toList), (.SB, "2:1-2:1".toList)] ∧
+    renderDoc false noParaCfg "a  \r\nb".toList = renderDoc false noParaCfg "a  \nb".toList := by decide +kernel
+
+/-- (3) the same configuration and a final LF: the `Softbreak (1, 2)` of `"a"` lies outside the text
+    (clamped: `1:1-1:1`), in `"a\n"` it is the LF (`2:0-2:0`); `Inside` fails for it, but it renders no
+    attributes, so `doc_final_newline_invariant_sp` applies -/
+example : (parseDoc noParaCfg "a".toList).toOption.map spValues =
+      some [(.root, "1:1-1:1".toList), (.T, "1:1-1:1".toList), (.SB, "1:1-1:1".toList)] ∧
+    (parseDoc noParaCfg "a\n".toList).toOption.map spValues =
+      some [(.root, "1:1-2:0".toList), (.T, "1:1-1:1".toList), (.SB, "2:0-2:0".toList)] ∧
+    (parseDoc noParaCfg "a".toList).toOption.map (allN (rendered (insideB "a".toList))) = some true := by
+  decide +kernel
+
+/-
+  OPEN (final newline): the hypothesis `hin` always holds — every node of `parseDoc cfg src` other than
+  `Root`, `Text`, `TextSpecial`, `Softbreak`, `Hardbreak` has a range `(a, b)` with `a < |src|` and
+  `b ≤ |src|`.  Missing lemmas:
+    (a) block nodes: `a < b ≤ |src|`.  `b ≤ |src|` is `doc_block_ranges` (Props/C05Doc.lean, under the
+        `i32` hypothesis `4·|src| + 8 < 2³¹`) or `Block.LX.parseBlocks_in_lines` (no size hypothesis);
+        NON-EMPTINESS `a < b` (every `get_map(start_line, _)` is called on a line that is not empty:
+        `tokLoop` skips empty lines, list items / quotes start at their marker) is proved nowhere yet;
+    (b) inline nodes `CodeInline`, `Em`, `Strong`, `Strikethrough`, `Link`, `Image`, `Autolink`: the OPEN
+        `doc_inline_ranges` of Props/C05Doc.lean (`Lemmas/C05Inline*.lean`, in progress) plus non-emptiness.
+  It is NOT true of `Softbreak` / `Hardbreak` in configurations without the paragraph rule (example (3)),
+  which is why the hypothesis is restricted to the values that render attributes.
+-/
+
+/-! # Part 3: LF ↦ CR LF -/
+
+/-- where LF ↦ CR LF moves the byte at offset `a` of a CR-free text -/
+def shiftOf (src : List Char) (a : Nat) : Nat := a + C10SP.lfBelow src a
+
+/-- the start of the range does not point at a line feed, and the end is not 0 -/
+def anchoredB (src : List Char) (r : Nat × Nat) : Bool := decide (C10SP.Anchored src r)
+
+theorem posAttr_crlf (src : List Char) (hcr : '\r' ∉ src) (r : Nat × Nat) (h : anchoredB src r = true) :
+    posAttr (lfToCrlf src) (shiftOf src r.1, shiftOf src r.2) = posAttr src r := by
+  have ha : C10SP.Anchored src r := by simpa [anchoredB] using h
+  have h1 := C10SP.getPosition_crlf_start src hcr r.1 ha.1
+  have h2 := C10SP.getPosition_crlf_end src hcr r.2 ha.2
+  rw [C10SP.getPosition_run, C10SP.getPosition_run] at h1 h2
+  simp only [Except.ok.injEq] at h1 h2
+  simp only [posAttr, shiftOf, h1, h2]
+
+/-- what is needed of ONE pair of inline runs: for the same text under the per-line tables of the LF and
+    of the CR LF document, the nodes that render attributes have ranges moved by `f`, all else equal -/
+def InlineExact (icfg : Inline.Cfg) (f : Nat → Nat) (c : List Char) (m₁ m₂ : InlineOps.Srcmap) : Prop :=
+  ∀ ns₁ ns₂, Inline.parseInline icfg c m₁ = .ok ns₁ → Inline.parseInline icfg c m₂ = .ok ns₂ →
+    rmapList id true (ofInlineList ns₂) = rmapList f true (ofInlineList ns₁)
+
+mutual
+/-- `P` at every pair of `InlineRoot` placeholders the splice walk visits in two block trees of the
+    same shape -/
+def PlN2 (P : List Char → InlineOps.Srcmap → InlineOps.Srcmap → Prop) : Block.BNode → Block.BNode → Prop
+  | ⟨_, _, c₁⟩, ⟨_, _, c₂⟩ => PlL2 P c₁ c₂
+def PlL2 (P : List Char → InlineOps.Srcmap → InlineOps.Srcmap → Prop) : List Block.BNode → List Block.BNode → Prop
+  | x :: xs, y :: ys =>
+    (match x.kind, y.kind with
+     | .inlineRoot c m₁, .inlineRoot _ m₂ => P c m₁ m₂
+     | _, _ => PlN2 P x y) ∧ PlL2 P xs ys
+  | _, _ => True
+end
+
+theorem rangeOf_rel {ρsrc : List Char} {k : Kind} {r₁ r₂ : Option (Nat × Nat)}
+    (h : RgRel (C10SP.crlfRel ρsrc) r₁ r₂) :
+    rangeOf id true k r₂ = rangeOf (shiftOf ρsrc) true k r₁ := by
+  unfold rangeOf
+  split
+  · rfl
+  · match r₁, r₂, h with
+    | none, none, _ => rfl
+    | some x, some y, h =>
+      obtain ⟨h1, h2⟩ := h
+      unfold C10SP.crlfRel at h1 h2
+      simp [mapRange, shiftOf, h1, h2]
+
+mutual
+/-- the splice walk on two block trees related by the EXACT offset relation -/
+theorem spliceNode_exact {icfg : Inline.Cfg} {src : List Char} : ∀ (b₁ b₂ : Block.BNode) (t₁ t₂ : Node),
+    NRel (C10SP.crlfRel src) b₁ b₂ → (∀ c m, b₁.kind ≠ .inlineRoot c m) →
+    PlN2 (InlineExact icfg (shiftOf src)) b₁ b₂ →
+    spliceNode icfg b₁ = .ok t₁ → spliceNode icfg b₂ = .ok t₂ →
+    rmap id true t₂ = rmap (shiftOf src) true t₁
+  | ⟨k₁, r₁, c₁⟩, ⟨k₂, r₂, c₂⟩, t₁, t₂, hn, hk, hp, h₁, h₂ => by
+    simp only [NRel] at hn
+    simp only [PlN2] at hp
+    have hkk : k₂ = k₁ := hn.1.eq_of_not_inline hk
+    subst hkk
+    simp only [spliceNode] at h₁ h₂
+    split at h₁
+    · cases h₁
+    · rename_i o₁ ho₁
+      split at h₂
+      · cases h₂
+      · rename_i o₂ ho₂
+        cases h₁; cases h₂
+        simp only [rmap, rangeOf_rel hn.2.1, spliceList_exact c₁ c₂ o₁ o₂ hn.2.2 hp ho₁ ho₂]
+theorem spliceList_exact {icfg : Inline.Cfg} {src : List Char} : ∀ (c₁ c₂ : List Block.BNode) (o₁ o₂ : List Node),
+    NRelL (C10SP.crlfRel src) c₁ c₂ → PlL2 (InlineExact icfg (shiftOf src)) c₁ c₂ →
+    spliceList icfg c₁ = .ok o₁ → spliceList icfg c₂ = .ok o₂ →
+    rmapList id true o₂ = rmapList (shiftOf src) true o₁
+  | [], [], o₁, o₂, _, _, h₁, h₂ => by
+    simp only [spliceList, Except.ok.injEq] at h₁ h₂
+    subst h₁ h₂; rfl
+  | [], _ :: _, _, _, hn, _, _, _ => by simp only [NRelL] at hn
+  | _ :: _, [], _, _, hn, _, _, _ => by simp only [NRelL] at hn
+  | x :: xs, y :: ys, o₁, o₂, hn, hp, h₁, h₂ => by
+    obtain ⟨hxy, hrest⟩ := hn.cons_inv
+    have hk := hxy.kind
+    simp only [PlL2] at hp
+    obtain ⟨hp1, hp2⟩ := hp
+    simp only [spliceList] at h₁
+    split at h₁
+    · -- an `InlineRoot` on side 1, hence on side 2
+      rename_i content m₁ hk₁
+      have hy : ∃ m₂, y.kind = .inlineRoot content m₂ := by
+        rw [hk₁] at hk
+        rcases hk with hk | ⟨c, a, b, e1, e2, _⟩
+        · exact ⟨m₁, hk.symm⟩
+        · cases e1; exact ⟨b, e2⟩
+      obtain ⟨m₂, hy⟩ := hy
+      rw [hk₁, hy] at hp1
+      simp only at hp1
+      simp only [spliceList, hy] at h₂
+      split at h₁
+      · cases h₁
+      · rename_i ns₁ hns₁
+        split at h₁
+        · cases h₁
+        · rename_i q₁ hq₁
+          cases h₁
+          split at h₂
+          · cases h₂
+          · rename_i ns₂ hns₂
+            split at h₂
+            · cases h₂
+            · rename_i q₂ hq₂
+              cases h₂
+              have e1 := hp1 ns₁ ns₂ hns₁ hns₂
+              have e2 := spliceList_exact xs ys q₁ q₂ hrest hp2 hq₁ hq₂
+              simp only [rmapList_eq_map, List.map_append] at e1 e2 ⊢
+              rw [e1, e2]
+    · -- anything else: the same kind on side 2
+      rename_i hne₁
+      have hy : y.kind = x.kind := hk.eq_of_not_inline (fun c m e => hne₁ c m e)
+      have hp1' : PlN2 (InlineExact icfg (shiftOf src)) x y := by
+        revert hp1
+        split
+        · rename_i e1 _
+          exact absurd e1 (hne₁ _ _)
+        · exact id
+      simp only [spliceList] at h₂
+      split at h₂
+      · rename_i c m hyk
+        rw [hy] at hyk
+        exact absurd hyk (hne₁ c m)
+      · split at h₁
+        · cases h₁
+        · rename_i t₁ ht₁
+          split at h₁
+          · cases h₁
+          · rename_i q₁ hq₁
+            cases h₁
+            split at h₂
+            · cases h₂
+            · rename_i t₂ ht₂
+              split at h₂
+              · cases h₂
+              · rename_i q₂ hq₂
+                cases h₂
+                simp only [rmapList, spliceNode_exact x y t₁ t₂ hxy (fun c m e => hne₁ c m e) hp1' ht₁ ht₂,
+                  spliceList_exact xs ys q₁ q₂ hrest hp2 hq₁ hq₂]
+end
+
+mutual
+theorem nrel_mono {ρ ρ' : Nat → Nat → Prop} (h : ∀ a b, ρ a b → ρ' a b) :
+    ∀ (n₁ n₂ : Block.BNode), NRel ρ n₁ n₂ → NRel ρ' n₁ n₂
+  | ⟨k₁, r₁, c₁⟩, ⟨k₂, r₂, c₂⟩, hn => by
+    simp only [NRel] at hn ⊢
+    refine ⟨?_, ?_, nrelL_mono h c₁ c₂ hn.2.2⟩
+    · rcases hn.1 with e | ⟨c, m₁, m₂, e1, e2, hm⟩
+      · exact Or.inl e
+      · refine Or.inr ⟨c, m₁, m₂, e1, e2, ?_⟩
+        clear e1 e2
+        induction m₁ generalizing m₂ with
+        | nil => cases m₂ <;> simp_all [Block.LE.MRel]
+        | cons p r ih =>
+          cases m₂ with
+          | nil => simp [Block.LE.MRel] at hm
+          | cons p' r' => exact ⟨hm.1, h _ _ hm.2.1, ih r' hm.2.2⟩
+    · match r₁, r₂, hn.2.1 with
+      | none, none, _ => trivial
+      | some x, some y, hr => exact ⟨h _ _ hr.1, h _ _ hr.2⟩
+theorem nrelL_mono {ρ ρ' : Nat → Nat → Prop} (h : ∀ a b, ρ a b → ρ' a b) :
+    ∀ (a b : List Block.BNode), NRelL ρ a b → NRelL ρ' a b
+  | [], [], _ => by simp only [NRelL]
+  | [], _ :: _, hn => by simp only [NRelL] at hn
+  | _ :: _, [], hn => by simp only [NRelL] at hn
+  | x :: xs, y :: ys, hn => by
+    obtain ⟨h1, h2⟩ := hn.cons_inv
+    exact Block.LE.NRelL.cons (nrel_mono h x y h1) (nrelL_mono h xs ys h2)
+end
+
+/-- **LF ↦ CR LF with sourcepos, from the exact block relation.** -/
+theorem doc_crlf_sp_of_blocks (x : Bool) (cfg : DocCfg) (src : List Char) (hsp : cfg.sourcepos = true)
+    (hcr : '\r' ∉ src)
+    (hb : BRes (C10SP.crlfRel src) (Block.parseBlocks cfg.blockCfg src) (Block.parseBlocks cfg.blockCfg (lfToCrlf src)))
+    (hinl : ∀ e, parseDoc cfg src ≠ .error (.inline e))
+    (hix : ∀ root₁ refs₁ root₂ refs₂, Block.parseBlocks cfg.blockCfg src = .ok (root₁, refs₁) →
+      Block.parseBlocks cfg.blockCfg (lfToCrlf src) = .ok (root₂, refs₂) →
+      PlN2 (InlineExact (cfg.inlineCfg refs₁) (shiftOf src)) root₁ root₂)
+    (hanch : ∀ t, parseDoc cfg src = .ok t → allN (rendered (anchoredB src)) t = true) :
+    renderDoc x cfg (lfToCrlf src) = renderDoc x cfg src := by
+  rcases hb with ⟨a, b, h1, h2, hk, hc, hr⟩ | ⟨e, h1, h2⟩
+  · obtain ⟨hroot, _⟩ := Block.parseBlocks_wf h1
+    have hix' := hix _ _ _ _ h1 h2
+    obtain ⟨⟨k₁, r₁, c₁⟩, refs₁⟩ := a
+    obtain ⟨⟨k₂, r₂, c₂⟩, refs₂⟩ := b
+    simp only at hk hc hr hroot hix'
+    subst hk hr hroot
+    simp only [PlN2] at hix'
+    rw [renderDoc_eq_renderOf, renderDoc_eq_renderOf]
+    unfold parseDoc at hinl hanch ⊢
+    rw [h1] at hinl hanch
+    rw [h1, h2]
+    simp only at hinl hanch ⊢
+    rw [afterBlocks_sp cfg hsp] at hinl hanch ⊢
+    rw [afterBlocks_sp cfg hsp]
+    simp only [spliceNode] at hinl hanch ⊢
+    cases hs₁ : spliceList (cfg.inlineCfg refs₁) c₁ with
+    | error e =>
+      exfalso
+      obtain ⟨e', rfl⟩ := spliceList_error c₁ e hs₁
+      rw [hs₁] at hinl
+      exact hinl e' rfl
+    | ok u₁ =>
+      obtain ⟨u₂, hs₂⟩ := spliceList_ok_transfer c₁ c₂ u₁
+        (nrelL_mono (fun a b (h : C10SP.crlfRel src a b) => by unfold C10SP.crlfRel at h; omega) c₁ c₂ hc) hs₁
+      simp only [hs₁] at hanch
+      simp only [hs₂]
+      have hall := hanch _ rfl
+      rw [allN_spPure _ (rendered_attrs _)] at hall
+      have hu := spliceList_exact (icfg := cfg.inlineCfg refs₁) (src := src) c₁ c₂ u₁ u₂ hc hix' hs₁ hs₂
+      have hT : rmap id true (joined cfg ⟨.blk .root, r₂, [], u₂⟩) =
+          rmap (shiftOf src) true (joined cfg ⟨.blk .root, r₁, [], u₁⟩) := by
+        rw [rmap_joined, rmap_joined]
+        simp [rmap, rangeOf, Kind.rendersAttrs, hu]
+      have := final_stage x cfg src (lfToCrlf src) (shiftOf src) (anchoredB src)
+        (fun r h => posAttr_crlf src hcr r h) _ _ hT hall
+      rw [sourceposNode_eq, sourceposNode_eq] at this
+      exact this
+  · unfold renderDoc parseDoc
+    rw [h1, h2]
+
+
+/-! ### `InlineExact` for inline content without attribute-rendering nodes -/
+
+/-- no node of the tree renders attributes (`Text`, `TextSpecial`, breaks only) -/
+def plainB (n : Node) : Bool := !n.kind.rendersAttrs
+
+mutual
+theorem rmap_plain (f : Nat → Nat) : ∀ t : Node, allN plainB t = true → rmap f true t = eraseRanges t
+  | ⟨k, r, a, cs⟩, h => by
+    simp only [allN, Bool.and_eq_true, plainB, Bool.not_eq_true'] at h
+    simp only [rmap, eraseRanges, rangeOf, h.1, Bool.not_false, Bool.and_self, if_true,
+      rmapList_plain f cs h.2]
+theorem rmapList_plain (f : Nat → Nat) : ∀ l : List Node, allNList plainB l = true →
+    rmapList f true l = eraseRangesList l
+  | [], _ => rfl
+  | c :: cs, h => by
+    simp only [allNList, Bool.and_eq_true] at h
+    simp only [rmapList, eraseRangesList, rmap_plain f c h.1, rmapList_plain f cs h.2]
+end
+
+mutual
+theorem allN_plain_erase : ∀ t : Node, allN plainB (eraseRanges t) = allN plainB t
+  | ⟨k, r, a, cs⟩ => by simp only [eraseRanges, allN, plainB, allNList_plain_erase cs]
+theorem allNList_plain_erase : ∀ l : List Node, allNList plainB (eraseRangesList l) = allNList plainB l
+  | [] => rfl
+  | c :: cs => by simp only [eraseRangesList, allNList, allN_plain_erase c, allNList_plain_erase cs]
+end
+
+/-- an inline run that produces `Text` / `TextSpecial` / break nodes only is `InlineExact` for ANY pair
+    of tables and any `f` (`inline_range_free`: the two runs differ in ranges only, and none of these
+    ranges is rendered) — `hix` holds at every paragraph without emphasis, links, images, code spans
+    and autolinks -/
+theorem inlineExact_of_plain (icfg : Inline.Cfg) (f : Nat → Nat) (c : List Char) (m₁ m₂ : InlineOps.Srcmap)
+    (hplain : ∀ ns₁, Inline.parseInline icfg c m₁ = .ok ns₁ → allNList plainB (ofInlineList ns₁) = true) :
+    InlineExact icfg f c m₁ m₂ := by
+  intro ns₁ ns₂ h₁ h₂
+  have he := inline_range_free icfg c m₁ m₂ ns₁ ns₂ h₁ h₂
+  have hp₁ := hplain ns₁ h₁
+  have hp₂ : allNList plainB (ofInlineList ns₂) = true := by
+    rw [← allNList_plain_erase, ← he, allNList_plain_erase]; exact hp₁
+  rw [rmapList_plain id _ hp₂, rmapList_plain f _ hp₁, he]
+
+/-- **C10 with sourcepos, LF ↦ CR LF (partial)**: the HTML with its `data-sourcepos` attributes does not
+    change, PROVIDED (`hinl`, as in `doc_crlf_invariant`) the inline pass does not panic on `src`,
+    (`hix`) every pair of inline runs of the two documents is `InlineExact` — the ranges of `CodeInline`,
+    `Em` / `Strong` / `Strikethrough`, `Link`, `Image`, `Autolink` nodes move with their bytes —, and
+    (`hanch`) no attribute-rendering node of the tree of `src` starts AT a line feed or has a range
+    ending at 0.  The block half needs no hypothesis: `Block.LX.parseBlocks_crlf_exact`
+    (`Lemmas/C10SourceposSim*.lean`) relates every block range and every value of a per-line table of
+    the two block trees by `b = a + #LF before a`. -/
+theorem doc_crlf_invariant_sp_partial (x : Bool) (cfg : DocCfg) (src : List Char) (hsp : cfg.sourcepos = true)
+    (hcr : '\r' ∉ src)
+    (hinl : ∀ e, parseDoc cfg src ≠ .error (.inline e))
+    (hix : ∀ root₁ refs₁ root₂ refs₂, Block.parseBlocks cfg.blockCfg src = .ok (root₁, refs₁) →
+      Block.parseBlocks cfg.blockCfg (lfToCrlf src) = .ok (root₂, refs₂) →
+      PlN2 (InlineExact (cfg.inlineCfg refs₁) (shiftOf src)) root₁ root₂)
+    (hanch : ∀ t, parseDoc cfg src = .ok t → allN (rendered (anchoredB src)) t = true) :
+    renderDoc x cfg (lfToCrlf src) = renderDoc x cfg src :=
+  doc_crlf_sp_of_blocks x cfg src hsp hcr (Block.LX.parseBlocks_crlf_exact cfg.blockCfg src hcr) hinl hix hanch
+
+/-! ## non-vacuity: the hypotheses evaluated on a document -/
+
+mutual
+def beqN : Node → Node → Bool
+  | ⟨k₁, r₁, a₁, c₁⟩, ⟨k₂, r₂, a₂, c₂⟩ => decide (k₁ = k₂) && decide (r₁ = r₂) && decide (a₁ = a₂) && beqL c₁ c₂
+def beqL : List Node → List Node → Bool
+  | [], [] => true
+  | x :: xs, y :: ys => beqN x y && beqL xs ys
+  | _, _ => false
+end
+
+mutual
+theorem beqN_sound : ∀ (a b : Node), beqN a b = true → a = b
+  | ⟨k₁, r₁, a₁, c₁⟩, ⟨k₂, r₂, a₂, c₂⟩, h => by
+    simp only [beqN, Bool.and_eq_true, decide_eq_true_eq] at h
+    obtain ⟨⟨⟨h1, h2⟩, h3⟩, h4⟩ := h
+    rw [h1, h2, h3, beqL_sound c₁ c₂ h4]
+theorem beqL_sound : ∀ (a b : List Node), beqL a b = true → a = b
+  | [], [], _ => rfl
+  | [], _ :: _, h => by simp [beqL] at h
+  | _ :: _, [], h => by simp [beqL] at h
+  | x :: xs, y :: ys, h => by
+    simp only [beqL, Bool.and_eq_true] at h
+    rw [beqN_sound x y h.1, beqL_sound xs ys h.2]
+end
+
+/-- `InlineExact`, evaluated -/
+def inlineExactB (icfg : Inline.Cfg) (f : Nat → Nat) (c : List Char) (m₁ m₂ : InlineOps.Srcmap) : Bool :=
+  match Inline.parseInline icfg c m₁, Inline.parseInline icfg c m₂ with
+  | .ok ns₁, .ok ns₂ => beqL (rmapList id true (ofInlineList ns₂)) (rmapList f true (ofInlineList ns₁))
+  | _, _ => true
+
+theorem inlineExactB_sound {icfg : Inline.Cfg} {f : Nat → Nat} {c : List Char} {m₁ m₂ : InlineOps.Srcmap}
+    (h : inlineExactB icfg f c m₁ m₂ = true) : InlineExact icfg f c m₁ m₂ := by
+  intro ns₁ ns₂ h₁ h₂
+  unfold inlineExactB at h
+  rw [h₁, h₂] at h
+  exact beqL_sound _ _ h
+
+mutual
+def plN2B (p : List Char → InlineOps.Srcmap → InlineOps.Srcmap → Bool) : Block.BNode → Block.BNode → Bool
+  | ⟨_, _, c₁⟩, ⟨_, _, c₂⟩ => plL2B p c₁ c₂
+def plL2B (p : List Char → InlineOps.Srcmap → InlineOps.Srcmap → Bool) : List Block.BNode → List Block.BNode → Bool
+  | x :: xs, y :: ys =>
+    (match x.kind, y.kind with
+     | .inlineRoot c m₁, .inlineRoot _ m₂ => p c m₁ m₂
+     | _, _ => plN2B p x y) && plL2B p xs ys
+  | _, _ => true
+end
+
+mutual
+theorem plN2B_sound {p : List Char → InlineOps.Srcmap → InlineOps.Srcmap → Bool}
+    {P : List Char → InlineOps.Srcmap → InlineOps.Srcmap → Prop} (hp : ∀ c m₁ m₂, p c m₁ m₂ = true → P c m₁ m₂) :
+    ∀ (a b : Block.BNode), plN2B p a b = true → PlN2 P a b
+  | ⟨_, _, c₁⟩, ⟨_, _, c₂⟩, h => by
+    simp only [plN2B] at h
+    simp only [PlN2]
+    exact plL2B_sound hp c₁ c₂ h
+theorem plL2B_sound {p : List Char → InlineOps.Srcmap → InlineOps.Srcmap → Bool}
+    {P : List Char → InlineOps.Srcmap → InlineOps.Srcmap → Prop} (hp : ∀ c m₁ m₂, p c m₁ m₂ = true → P c m₁ m₂) :
+    ∀ (a b : List Block.BNode), plL2B p a b = true → PlL2 P a b
+  | [], _, _ => by simp only [PlL2]
+  | _ :: _, [], _ => by simp only [PlL2]
+  | x :: xs, y :: ys, h => by
+    simp only [plL2B, Bool.and_eq_true] at h
+    simp only [PlL2]
+    refine ⟨?_, plL2B_sound hp xs ys h.2⟩
+    have h1 := h.1
+    revert h1
+    split
+    · rename_i e1 e2
+      intro h1
+      exact hp _ _ _ h1
+    · intro h1
+      exact plN2B_sound hp x y h1
+end
+
+/-- emphasis over a line break, a code span, a list item with a link on a continuation line -/
+def exDoc2 : List Char := "*a\nb* `c`\n\n- x\n  [y](z)".toList
+
+theorem exDoc2_hyps :
+    '\r' ∉ exDoc2 ∧ (∀ e, parseDoc (exCfg true 100) exDoc2 ≠ .error (.inline e)) ∧
+    (∀ root₁ refs₁ root₂ refs₂, Block.parseBlocks (exCfg true 100).blockCfg exDoc2 = .ok (root₁, refs₁) →
+      Block.parseBlocks (exCfg true 100).blockCfg (lfToCrlf exDoc2) = .ok (root₂, refs₂) →
+      PlN2 (InlineExact ((exCfg true 100).inlineCfg refs₁) (shiftOf exDoc2)) root₁ root₂) ∧
+    (∀ t, parseDoc (exCfg true 100) exDoc2 = .ok t → allN (rendered (anchoredB exDoc2)) t = true) := by
+  refine ⟨by decide, not_inline_of (by decide +kernel), ?_, ?_⟩
+  · intro root₁ refs₁ root₂ refs₂ h₁ h₂
+    have : (match Block.parseBlocks (exCfg true 100).blockCfg exDoc2,
+        Block.parseBlocks (exCfg true 100).blockCfg (lfToCrlf exDoc2) with
+      | .ok (r₁, rf₁), .ok (r₂, _) =>
+        plN2B (inlineExactB ((exCfg true 100).inlineCfg rf₁) (shiftOf exDoc2)) r₁ r₂
+      | _, _ => false) = true := by decide +kernel
+    rw [h₁, h₂] at this
+    exact plN2B_sound (fun c m₁ m₂ h => inlineExactB_sound h) _ _ this
+  · intro t ht
+    have : (parseDoc (exCfg true 100) exDoc2).toOption.map (allN (rendered (anchoredB exDoc2))) = some true := by
+      decide +kernel
+    rw [ht] at this
+    simpa [Except.toOption] using this
+
+example (x : Bool) : renderDoc x (exCfg true 100) (lfToCrlf exDoc2) = renderDoc x (exCfg true 100) exDoc2 :=
+  doc_crlf_invariant_sp_partial x _ _ rfl exDoc2_hyps.1 exDoc2_hyps.2.1 exDoc2_hyps.2.2.1 exDoc2_hyps.2.2.2
+
+/-- the instance is not trivial: seven positions, two of them on the second line of a node -/
+example : (parseDoc (exCfg true 100) exDoc2).toOption.map (fun t => (spValues t).filter (fun p => p.1 ≠ .T ∧ p.1 ≠ .SB)) =
+    some [(.root, "1:1-5:8".toList), (.p, "1:1-2:6".toList), (.E, "1:1-2:2".toList), (.C, "2:4-2:6".toList),
+      (.ul, "4:1-5:8".toList), (.li, "4:1-5:8".toList), (.L, "5:3-5:8".toList)] := by decide +kernel
+
+/-
+  OPEN (LF ↦ CR LF with sourcepos) — what separates `doc_crlf_invariant_sp_partial` from
+      theorem doc_crlf_invariant_sp (x cfg src) (hsp : cfg.sourcepos = true) (hcr : '\r' ∉ src) :
+          renderDoc x cfg (lfToCrlf src) = renderDoc x cfg src
+
+   1. `hix` — EXACTNESS of the inline parser in its per-line table:
+          theorem parseInline_exact (icfg) (src content m₁ m₂) (hm : MRel (C10SP.crlfRel src) m₁ m₂)
+              (htab : m₁ is a table `get_lines` (or the ATX rule) made for `content` out of lines of `src`) :
+              InlineExact icfg (shiftOf src) content m₁ m₂
+      `Lemmas/C10DocInline.lean` proves the ORDER version only (`inline_ok_transfer_rel`: ranges `≤`).
+      The exact version is a statement about every place where the inline parser computes with SOURCE
+      offsets: `get_map` (a position is translated by the entry of ITS line: fine as long as the position
+      lies inside the bytes that entry describes — false for the virtual spaces of a split tab and for
+      the break behind the last line of the no-paragraph fallback, both of which only occur in `Text` /
+      break nodes), `end - marker_len` / `start + marker_len` of the delimiter matching (the marker run
+      lies inside one line), `map_end - count` of `trailing_text_pop`, the hull of `trailing_text_push`.
+      It is FALSE for arbitrary tables and FALSE for break nodes (part 2, example (2), second half: `Hardbreak (1,4)`
+      in both texts under the one-entry table), hence the restriction of `rmap … true` to the values
+      that render attributes.  It contains the OPEN `doc_inline_ranges` of Props/C05Doc.lean.
+   2. `hanch` — no block node and no `CodeInline` / `Em` / … / `Autolink` node starts at a line feed or
+      ends at offset 0: non-emptiness of ranges (`a < b`, first byte a byte of the node).  For block
+      nodes: every `get_map(start_line, _)` is called with a non-empty `start_line` (as OPEN (a) of
+      part 2); `Block.LX.parseBlocks_in_lines` already gives "inside a line, ends included".
+   3. `hinl` — as in Props/C10Doc.lean (equal inline PANICS on the two tables).
+-/
 
 end MdIt.Pipeline
